@@ -35,7 +35,8 @@ ASSUMPTIONS = ["documents use only declared properties and have no duplicate mem
 EVAL_DEFS = [("PY_UNM", "py_case_unmodelled"), ("GO_UNM", "go_case_unmodelled"), ("MM_PY", "mm_py"), ("MM_GO", "mm_go"),
              ("PF_RT", "pf_rt"), ("PF_WIRE", "pf_wire"), ("ONE_SIDE", "one_side_only"),
              ("SAFE_RT", "some_doc_rt_safe"), ("PF_RT_SAFE", "pf_rt_in_safe"), ("SAFE_WIRE", "some_doc_wire_safe"),
-             ("PF_WIRE_SAFE", "pf_wire_in_safe"), ("SPEC_EQ", "spec_eq_differs")]
+             ("PF_WIRE_SAFE", "pf_wire_in_safe"), ("SPEC_EQ", "spec_eq_differs"),
+             ("SAFE_PROVED", "some_doc_wire_proved"), ("PF_PROVED", "pf_wire_in_proved")]
 
 TS = re.compile(r"^\d{4}-\d\d-\d\dT\d\d:\d\d:\d\d(\.\d+)?(Z|[+-]\d\d:\d\d)$")
 
@@ -393,6 +394,9 @@ def run(ctx, verdict, replay=None, model_ok=True):
     for sid in mm_import[:4]:
         unexplained.append({"job": {"fmt": batch.schemas[sid][1], "pkg": sid, "schema_text": texts[sid], "type": "Root", "docs": [], "meta": {}},
                             "which": ["MM_IMPORT"], "observed_import_ok": import_ok[sid]})
+    for i in ev["PF_PROVED"][:3]:
+        unexplained.append(dict(payload(i), which=["failure inside the fragment of py_go_same_wire_safe"], python=pres[i],
+                                go=gmap.get(jobs[i]["id"])))
     for i in ev["SPEC_EQ"][:3]:
         unexplained.append(dict(payload(i), which=["le_null_u differs from json_eq_mod_null"], python=pres[i]))
 
@@ -456,8 +460,10 @@ def run(ctx, verdict, replay=None, model_ok=True):
         "unmodelled_groups": {"python": len(ev["PY_UNM"]), "go": len(ev["GO_UNM"])},
         "mismatches_model_vs_impl": dict({k: len(ev[k]) for k in ("MM_PY", "MM_GO")}, MM_IMPORT=len(mm_import), SPEC_EQ=len(ev["SPEC_EQ"])),
         "modules_checked_for_importability": len(mcases),
-        "groups_with_a_document_in_the_safe_fragment": {"py_roundtrip_partial": len(ev["SAFE_RT"]), "py_go_same_wire_partial": len(ev["SAFE_WIRE"])},
-        "groups_with_a_failure_inside_the_safe_fragment": {"py_roundtrip_partial": len(ev["PF_RT_SAFE"]), "py_go_same_wire_partial": len(ev["PF_WIRE_SAFE"])},
+        "groups_with_a_document_in_the_safe_fragment": {"py_roundtrip_partial": len(ev["SAFE_RT"]), "wire_safe (validated)": len(ev["SAFE_WIRE"]),
+                                                        "py_go_same_wire_safe (proved: wire_safeF)": len(ev["SAFE_PROVED"])},
+        "groups_with_a_failure_inside_the_safe_fragment": {"py_roundtrip_partial": len(ev["PF_RT_SAFE"]), "wire_safe (validated)": len(ev["PF_WIRE_SAFE"]),
+                                                           "py_go_same_wire_safe (proved: wire_safeF)": len(ev["PF_PROVED"])},
         "propfail_groups": {k: len(ev[k]) for k in ("PF_RT", "PF_WIRE", "ONE_SIDE")},
         "property_evaluator_disagreements": evaluator_disagreements,
         "cases_validated_against_impl": len(accepted) - len([i for i in accepted if i in unm]) - len(mm),
